@@ -1,7 +1,7 @@
 #!/bin/bash
 # seedtool.sh <seed-src-dir> <pkgdir> <property> [quick|thorough]
 # 1. validates a seeded change in a scratch worktree (demo passes without / fails with the change; package tests pass with it)
-# 2. applies it to /repo, runs ./check <property>, restores /repo.
+# 2. applies it to a second scratch worktree and runs ./check <property> against that (VERIF_REPO); /repo is not touched.
 set -u
 src=$1; pkg=$2; prop=$3; tier=${4:-quick}
 wt=/tmp/wtv_$$
@@ -9,15 +9,21 @@ export GOFLAGS=-mod=mod GOPROXY=off
 git -C /repo worktree add -q --detach $wt HEAD || exit 2
 cp $src/demo_test.go $wt/$pkg/zz_seed_demo_test.go
 run=$(grep -o "func Test[A-Za-z0-9_]*" $src/demo_test.go | sed 's/func //' | paste -sd'|')
-( cd $wt && go test -vet=off -count=1 -run "^($run)\$" ./$pkg/ > /tmp/seed_clean.log 2>&1 ); clean=$?
+( cd $wt && go test -vet=off -count=1 -run "^($run)\$" ./$pkg/ > /tmp/seed_clean_$$.log 2>&1 ); clean=$?
 git -C $wt apply $src/patch.diff || { echo "PATCH DOES NOT APPLY"; git -C /repo worktree remove --force $wt; exit 3; }
-( cd $wt && go build ./... > /tmp/seed_build.log 2>&1 ); build=$?
-( cd $wt && go test -vet=off -count=1 -run "^($run)\$" ./$pkg/ > /tmp/seed_mut.log 2>&1 ); mut=$?
+( cd $wt && go build ./... > /tmp/seed_build_$$.log 2>&1 ); build=$?
+( cd $wt && go test -vet=off -count=1 -run "^($run)\$" ./$pkg/ > /tmp/seed_mut_$$.log 2>&1 ); mut=$?
 rm $wt/$pkg/zz_seed_demo_test.go
-( cd $wt && go test -vet=off -count=1 ./$pkg/... > /tmp/seed_suite.log 2>&1 ); suite=$?
+( cd $wt && go test -vet=off -count=1 ./$pkg/... > /tmp/seed_suite_$$.log 2>&1 ); suite=$?
 git -C /repo worktree remove --force $wt
 echo "VALIDATION: demo-on-clean exit=$clean (want 0), build-with-change exit=$build (want 0), demo-with-change exit=$mut (want !=0), package-suite-with-change exit=$suite (want 0)"
-git -C /repo apply $src/patch.diff || exit 3
-( cd /verif && ./check $prop $tier > /tmp/seed_check.log 2>&1 ); chk=$?
-git -C /repo checkout -- .
-echo "CHECK $prop $tier exit=$chk"; grep -c "^VIOLATION" /tmp/seed_check.log; grep "^VIOLATION" /tmp/seed_check.log | head -3 | cut -c1-260; tail -1 /tmp/seed_check.log
+# the check runs against a second scratch worktree with the change applied (VERIF_REPO), with its own evidence and work
+# directories, so /repo and /verif/evidence are never touched by a seeded change
+wt2=/tmp/wtk_$$
+git -C /repo worktree add -q --detach $wt2 HEAD || exit 2
+git -C $wt2 apply $src/patch.diff || { git -C /repo worktree remove --force $wt2; exit 3; }
+( cd /verif && VERIF_EVIDENCE=/tmp/ev_$$ VERIF_WORK=/tmp/wk_$$ VERIF_REPO=$wt2 ./check $prop $tier > /tmp/seed_check_$$.log 2>&1 ); chk=$?
+git -C /repo worktree remove --force $wt2
+rm -rf /tmp/ev_$$ /tmp/wk_$$
+cp /tmp/seed_check_$$.log /tmp/seed_check.log
+echo "CHECK $prop $tier exit=$chk"; grep -c "^VIOLATION" /tmp/seed_check_$$.log; grep "^VIOLATION" /tmp/seed_check_$$.log | head -3 | cut -c1-260; tail -1 /tmp/seed_check_$$.log
